@@ -298,6 +298,17 @@ unsafe fn null_view<V, T>() -> V {
 }
 
 fn run_views_one<T: Elem>(beh: &[Value]) -> Option<Value> {
+    track::layout_check_start();
+    let r = run_views_inner::<T>(beh);
+    let (bad, want, got) = track::layout_check_stop();
+    if r.is_none() && bad > 0 {
+        return Some(json!({"step": beh.len(), "op": "drop", "what": "memory released with a layout different from the one it was allocated with",
+            "allocated_size": want, "released_size": got, "mismatches": bad}));
+    }
+    r
+}
+
+fn run_views_inner<T: Elem>(beh: &[Value]) -> Option<Value> {
     track::reset();
     unsafe { BASE = (0, 0, 0); }
     let mut backing: Option<Vec<T>> = None; // owner of borrowed data
